@@ -280,6 +280,7 @@ func init() {
 				}
 			}
 		})
+		c19K8s(c, &idx)
 	})
 	chk.Replayers["C19"] = func(path string) error {
 		var rp c19Replay
